@@ -76,18 +76,34 @@ package throttle
 //@   ensures b.b[index] == 0
 
 // isAllowed: a negative limit passes everything; otherwise, under the limiter's
-// lock, the event is first added to the bucket of its (possibly re-mapped) time
-// - slot distrIdx, amount 1 or the event size - and then passes iff that bucket
-// is within the limit selected for it.
+// lock, the window is advanced once (rebuildBuckets, with the event's own time), the
+// event is added exactly once to the bucket of its (possibly re-mapped) time
+// (index = id - minID, minID read after the window moved) - amount 1, or the event
+// size for the size kind - and then passes iff that very counter is within the limit
+// selected for it.  Without an enabled distribution the counter is slot 0 and the limit
+// the total limit; with one, slot and limit are exactly what getDistrData answered for
+// this bucket and this event (per share: "each listed value stays within its share").
+// A second add (for instance un-counting a refused event) is a violation.
 
 //@ func (*inMemoryLimiter).isAllowed
 //@   option allow-exit yes
 //@   ghost nadd int = 0
 //@   ghost val int = 0
 //@   ghost lim0 int = 0
+//@   ghost gid int = 0
+//@   ghost gmin int = 0
+//@   ghost nrb int = 0
+//@   ghost nmin int = 0
+//@   ghost nen int = 0
+//@   ghost en bool = false
+//@   ghost used bool = false
+//@   ghost gdi int = 0
+//@   ghost glim int = 0
 //@   requires event != nil
 //@   ensures lim0 < 0 ==> result && nadd == 0
-//@   ensures lim0 >= 0 ==> nadd == 1 && result == (val <= limit)
+//@   ensures lim0 >= 0 ==> nadd == 1 && used == en && nrb == 1
+//@   ensures lim0 >= 0 && !en ==> result == (val <= lim0)
+//@   ensures lim0 >= 0 && en ==> result == (val <= glim)
 //@   callee getLimit() (r)
 //@     pure
 //@     set lim0 := r
@@ -96,20 +112,32 @@ package throttle
 //@   callee unlock()
 //@     pure
 //@   callee rebuildBuckets(t) (r)
+//@     requires t.wall == ts.wall && t.ext == ts.ext
 //@     preserves inMemoryLimiter, Event
+//@     set gid := r
+//@     set nrb := nrb + 1
 //@   callee getMinID() (r)
+//@     requires nrb == 1
 //@     pure
+//@     set gmin := r
+//@     set nmin := nmin + 1
 //@   callee isEnabled() (r)
 //@     pure
+//@     set en := ite(nen == 0, r, en)
+//@     set nen := nen + 1
 //@   callee getDistrData(i, e) (s, di, lim)
-//@     requires i == index && e == event
+//@     requires nrb == 1 && nmin >= 1 && i == gid - gmin && e == event && en && !used && nadd == 0
 //@     preserves inMemoryLimiter, Event
+//@     set used := true
+//@     set gdi := di
+//@     set glim := lim
 //@   callee add(i, d, v)
-//@     requires nadd == 0 && i == index && d == distrIdx
+//@     requires nadd == 0 && nrb == 1 && nmin >= 1 && i == gid - gmin && used == en && d == ite(used, gdi, 0)
+//@     requires v == ite(l.limit.kind == limitKindSize, event.Size, 1)
 //@     preserves inMemoryLimiter, Event
 //@     set nadd := nadd + 1
 //@   callee get(i, d) (r)
-//@     requires nadd == 1 && i == index && d == distrIdx
+//@     requires nadd == 1 && i == gid - gmin && d == ite(used, gdi, 0)
 //@     pure
 //@     set val := r
 //@   callee updateDistrMetrics(s, e)
@@ -121,6 +149,7 @@ package throttle
 
 //@ func (*rule).isMatch
 //@   requires len(r.values) >= len(r.fields)
+//@   pure
 //@   ghost alleq bool = true
 //@   ensures result == alleq
 //@   loop 1 invariant alleq && rangeindex < len(r.fields)
@@ -136,6 +165,7 @@ package throttle
 // moves the window.
 
 //@ func (*inMemoryLimiter).rebuildBuckets
+//@   preserves inMemoryLimiter, Event
 //@   ghost gw int = 0
 //@   ghost ge int = 0
 //@   ghost nnow int = 0
@@ -147,6 +177,7 @@ package throttle
 //@   callee rebuild(cur, t) (r)
 //@     requires nnow == 1 && cur.wall == gw && cur.ext == ge
 //@     requires t.wall == ts.wall && t.ext == ts.ext
+//@     preserves inMemoryLimiter, Event
 
 // ---------------------------------------------------------------------------
 // C16 ("keys never share a budget", and no key gets two budgets): the limiter of a
@@ -162,16 +193,22 @@ package throttle
 //@ func (*limitersMap).getOrAdd
 //@   ghost wl bool = false
 //@   ghost wabsent bool = false
-//@   requires rule != nil
+//@   requires rule != nil && l.limiterCfg != nil && l.limitDistrMetrics != nil && l.limiterCfg.bucketsCount >= 0
 //@   callee Lock()
 //@     set wl := true
+//@   ghost gkid int = 0
 //@   callee maplookup:lims(k) (v, ok)
 //@     set wabsent := wl && !ok
+//@     set gkid := uf_sid(k)
 //@     set nhit := nhit + ite(ok, 1, 0)
 //@   callee mapupdate:lims(k, v)
-//@     requires wl && wabsent
+//@     requires wl && wabsent && uf_sid(k) == gkid
+//@     requires len(k) == len(rule.byteIdxPart) + len(throttleKey)
+//@     requires forall j :: 0 <= j && j < len(rule.byteIdxPart) ==> k[j] == old(rule.byteIdxPart[j])
+//@     requires forall j :: 0 <= j && j < len(throttleKey) ==> k[len(rule.byteIdxPart) + j] == throttleKey[j]
 //@   callee newLimiter(k, o, r) (lim)
 //@     requires wl && wabsent
+//@     requires k == throttleKey && o == keyLimitOverride && r == rule
 //@     pure
 //@   callee newLimiterWithGen(lim, gen) (r)
 //@     pure
@@ -199,6 +236,7 @@ package throttle
 // inside one configured interval would fall into different buckets).
 
 //@ func (bucketsMeta).timeToBucketID
+//@   pure
 //@   ghost gn int = 0
 //@   ghost gi int = 0
 //@   ensures gi > 0 && gn >= 0 ==> result == gn / gi
@@ -213,3 +251,482 @@ package throttle
 //@     requires false
 //@   callee Milliseconds() (v)
 //@     requires false
+
+// ---------------------------------------------------------------------------
+// C16, distributed path.
+
+//@ func (*distributedBuckets).add
+//@   requires 0 <= index && index < len(b.b) && 0 <= distrIndex && distrIndex < len(b.b[index])
+//@   modifies b.b[index][distrIndex]
+//@   ensures b.b[index][distrIndex] == old(b.b[index][distrIndex]) + value
+
+//@ func (*distributedBuckets).get
+//@   requires 0 <= index && index < len(b.b) && 0 <= distrIndex && distrIndex < len(b.b[index])
+//@   pure
+//@   ensures result == b.b[index][distrIndex]
+
+//@ func (*distributedBuckets).reset
+//@   requires 0 <= index && index < len(b.b)
+//@   modifies b.b[index][:]
+//@   ensures forall k :: 0 <= k && k < len(b.b[index]) ==> b.b[index][k] == 0
+//@   loop 1 invariant -1 <= rangeindex && rangeindex < len(b.b[index])
+//@   loop 1 invariant forall k :: 0 <= k && k <= rangeindex ==> b.b[index][k] == 0
+
+//@ func (*distributedBuckets).isEmpty
+//@   requires 0 <= index && index < len(b.b)
+//@   pure
+//@   ensures result == (forall k :: 0 <= k && k < len(b.b[index]) ==> b.b[index][k] <= 0)
+//@   loop 1 invariant -1 <= rangeindex && rangeindex < len(b.b[index])
+//@   loop 1 invariant forall k :: 0 <= k && k <= rangeindex ==> b.b[index][k] <= 0
+
+//@ func (*distributedBuckets).getDistrCount
+//@   pure
+//@   ensures len(b.b) > 0 ==> result == len(b.b[0])
+//@   ensures len(b.b) == 0 ==> result == 0
+
+// actualizeIndex (used when a bucket index was taken before a possible window shift):
+// the returned index names the same bucket id as `index` did while the window ended
+// at maxID (index' + maxID' == index + maxID), and it is reported as actual only if
+// that bucket is still inside the window (index' >= 0, given that the window only
+// moves forward).
+
+//@ func (bucketsMeta).actualizeIndex
+//@   pure
+//@   ensures result0 + m.maxID == index + maxID
+//@   ensures result1 && 0 <= index && maxID <= m.maxID ==> 0 <= result0 && result0 <= index
+//@   ensures m.maxID == maxID ==> result1
+//@   ensures result0 > 0 ==> result1
+
+//@ func (*distributedBuckets).rebuild$1
+//@   requires 0 <= count && count <= len(b.b) && b.count == len(b.b)
+//@   requires forall i, j :: 0 <= i && i < j && j < len(b.b) ==> ref(b.b[i]) != ref(b.b[j])
+//@   ensures len(b.b) == old(len(b.b)) && b.count == old(b.count) && b.minID == old(b.minID) && b.maxID == old(b.maxID)
+//@   ensures forall k :: 0 <= k && k < len(b.b) - count ==> b.b[k] == old(b.b[k + count])
+//@   ensures forall k :: len(b.b) - count <= k && k < len(b.b) ==> b.b[k] == old(b.b[k - (len(b.b) - count)])
+//@   ensures forall k, d :: 0 <= k && k < len(b.b) - count && 0 <= d && d < len(b.b[k]) ==> b.b[k][d] == old(b.b[k + count][d])
+//@   ensures forall k, d :: len(b.b) - count <= k && k < len(b.b) && 0 <= d && d < len(b.b[k]) ==> b.b[k][d] == 0
+//@   ensures forall i, j :: 0 <= i && i < j && j < len(b.b) ==> ref(b.b[i]) != ref(b.b[j])
+//@   loop 1 invariant 0 <= i && i <= count && len(b.b) == old(len(b.b)) && b.count == len(b.b)
+//@   loop 1 invariant forall k :: 0 <= k && k < len(b.b) - count ==> b.b[k] == old(b.b[k + count])
+//@   loop 1 invariant forall k :: len(b.b) - count <= k && k < len(b.b) ==> b.b[k] == old(b.b[k - (len(b.b) - count)])
+//@   loop 1 invariant forall k, d :: 0 <= k && k < len(b.b) - count && 0 <= d && d < len(b.b[k]) ==> b.b[k][d] == old(b.b[k + count][d])
+//@   loop 1 invariant forall k, d :: len(b.b) - i <= k && k < len(b.b) && 0 <= d && d < len(b.b[k]) ==> b.b[k][d] == 0
+//@   callee getCount() (r)
+//@     pure
+//@     ensures r == b.count
+
+// getLimit (C16: "each listed value stays within its share"): a value listed in the
+// distribution is served by the share the configuration lists it under (the index the
+// map holds for it) and by that share's limit; any other value by the default share
+// (index -1, default limit).  The map's values are indices into distributions: that is
+// established by parseLimitDistribution (oracle on its map updates) and assumed here.
+
+//@ func (*limitDistributions).getLimit
+//@   ghost gok bool = false
+//@   ghost gv int = 0
+//@   ghost gkey bool = true
+//@   pure
+//@   ensures gkey
+//@   ensures gok ==> result0 == gv && 0 <= result0 && result0 < len(ld.distributions) && result1 == ld.distributions[result0].limit
+//@   ensures !gok ==> result0 == -1 && result1 == ld.defDistribution.limit
+//@   ensures result0 >= 0 ==> result0 < len(ld.distributions) && result1 == ld.distributions[result0].limit
+//@   ensures result0 < 0 ==> result0 == -1 && result1 == ld.defDistribution.limit
+//@   callee maplookup:idxByKey(k) (v, ok)
+//@     ensures ok ==> 0 <= v && v < len(ld.distributions)
+//@     set gkey := k == key
+//@     set gok := ok
+//@     set gv := v
+
+// getDistrData (C16: "each listed value stays within its share ...; the default share
+// borrows only free room").  gi / gl are what getLimit answered for the event's field
+// value; uf_bk(d) is what the bucket row holds in slot d (get is asked about the row
+// bucketIdx only); v1 is the amount isAllowed is going to add (1, or the event size for
+// the size kind).
+//  - a listed value is charged to its own slot gi+1 and compared with its own limit;
+//  - an unlisted value is charged to the default slot 0 while that has room for it;
+//  - only when it has not, a listed share with room for the whole amount may be borrowed
+//    (cur + val <= that share's limit), the one with most room left is taken, and if no
+//    share has room the event stays on the default slot (and is refused by isAllowed);
+//  - the slot is always a valid column of the row: 0 <= slot <= len(distributions).
+
+//@ func (*inMemoryLimiter).getDistrData
+//@   ghost gi int = 0
+//@   ghost gl int = 0
+//@   ghost ngl int = 0
+//@   ghost gsid int = 0
+//@   ghost nas int = 0
+//@   requires event != nil
+//@   pure
+//@   ensures ngl == 1 && nas == 1 && uf_sid(result0) == gsid
+//@   ensures 0 <= result1 && result1 <= len(l.limit.distributions.distributions)
+//@   ensures gi >= 0 ==> result1 == gi + 1 && result2 == gl
+//@   ensures gi < 0 && uf_bk(0) + ite(l.limit.kind == limitKindSize, event.Size, 1) <= gl ==> result1 == 0 && result2 == gl
+//@   ensures gi < 0 && result1 == 0 ==> result2 == gl
+//@   ensures gi < 0 && result1 > 0 ==> result2 == l.limit.distributions.distributions[result1 - 1].limit
+//@   ensures gi < 0 && result1 > 0 ==> uf_bk(result1) + ite(l.limit.kind == limitKindSize, event.Size, 1) <= result2
+//@   ensures gi < 0 && result1 > 0 ==> (forall k :: 0 <= k && k < len(l.limit.distributions.distributions) ==> l.limit.distributions.distributions[k].limit - uf_bk(k + 1) <= result2 - uf_bk(result1))
+//@   ensures gi < 0 && result1 == 0 && uf_bk(0) + ite(l.limit.kind == limitKindSize, event.Size, 1) > gl ==> (forall k :: 0 <= k && k < len(l.limit.distributions.distributions) ==> uf_bk(k + 1) + ite(l.limit.kind == limitKindSize, event.Size, 1) > l.limit.distributions.distributions[k].limit)
+//@   loop 1 invariant -1 <= rangeindex && rangeindex < len(l.limit.distributions.distributions) && ngl == 1 && gi < 0
+//@   loop 1 invariant val == ite(l.limit.kind == limitKindSize, event.Size, 1) && uf_bk(0) + val > gl
+//@   loop 1 invariant idx == 0 ==> maxDiff == -1 && limit == gl
+//@   loop 1 invariant idx != 0 ==> 1 <= idx && idx <= rangeindex + 1 && limit == l.limit.distributions.distributions[idx - 1].limit && maxDiff == limit - (uf_bk(idx) + val) && maxDiff >= 0
+//@   loop 1 invariant forall k :: 0 <= k && k <= rangeindex ==> l.limit.distributions.distributions[k].limit - (uf_bk(k + 1) + val) <= maxDiff
+//@   callee Dig(path) (n)
+//@     requires path == l.limit.distributions.field
+//@     pure
+//@   callee AsString() (s)
+//@     pure
+//@     set gsid := uf_sid(s)
+//@     set nas := nas + 1
+//@   callee getLimit(k) (i, lm)
+//@     requires nas == 1 && uf_sid(k) == gsid
+//@     set gi := i
+//@     set gl := lm
+//@     set ngl := ngl + 1
+//@   callee get(i, d) (r)
+//@     requires i == bucketIdx
+//@     pure
+//@     ensures r == uf_bk(d)
+
+// (*Plugin).isAllowed - rule selection (C16: "the limit selected by the first matching
+// rule"; "keys never share a budget").  up_mr(r) stands for "rule r matches the event"
+// (what isMatch answers for it).  Rules are tried in configuration order; the
+// limiter is asked for exactly once, for the first rule that matches and for the
+// event's own throttle key (the value of throttle_field, "default" when the field is
+// not configured or empty); the verdict is that limiter's verdict on this very event;
+// when no rule matches the event passes and no limiter is touched.
+
+//@ func (*Plugin).isAllowed
+//@   ghost nga int = 0
+//@   ghost nla int = 0
+//@   ghost res bool = false
+//@   ghost gtag int = 0
+//@   ghost gpay int = 0
+//@   ghost tkdig bool = false
+//@   ghost tkid int = 0
+//@   ghost tklen int = 0
+//@   ghost ntk int = 0
+//@   requires event != nil && p.config != nil && p.limitersMap != nil
+//@   requires p.limitersMap.limiterCfg != nil && p.limitersMap.limitDistrMetrics != nil && p.limitersMap.limiterCfg.bucketsCount >= 0
+//@   requires forall k :: 0 <= k && k < len(p.rules) ==> p.rules[k] != nil && len(p.rules[k].values) >= len(p.rules[k].fields)
+//@   ensures (forall k :: 0 <= k && k < old(len(p.rules)) ==> !up_mr(old(p.rules[k]))) ==> result && nga == 0 && nla == 0
+//@   ensures (exists k :: 0 <= k && k < old(len(p.rules)) && up_mr(old(p.rules[k]))) ==> nga == 1 && nla == 1 && result == res
+//@   loop 1 invariant rangeindex < len(p.rules) && nga == 0 && nla == 0
+//@   loop 1 invariant forall k :: 0 <= k && k <= rangeindex ==> !up_mr(p.rules[k])
+//@   callee Dig(path) (n)
+//@     pure
+//@     set tkdig := path == p.config.ThrottleField_
+//@   callee AsString() (s)
+//@     pure
+//@     set tkid := ite(tkdig, uf_sid(s), tkid)
+//@     set tklen := ite(tkdig, len(s), tklen)
+//@     set ntk := ntk + ite(tkdig, 1, 0)
+//@   callee isMatch(e) (m)
+//@     requires e == event
+//@     ensures m == up_mr(recv)
+//@   callee getOrAdd(k, o, buf, r) (lim, b)
+//@     requires nga == 0 && up_mr(r)
+//@     requires exists i :: 0 <= i && i < len(p.rules) && p.rules[i] == r && (forall j :: 0 <= j && j < i ==> !up_mr(p.rules[j]))
+//@     requires len(p.config.ThrottleField_) > 0 && p.config.ThrottleField_ != p.config.TimeField_ && p.config.ThrottleField_ != p.config.RedisBackendCfg.LimiterKeyField_ ==> ntk == 1
+//@     requires len(p.config.ThrottleField_) > 0 && tklen > 0 && p.config.ThrottleField_ != p.config.TimeField_ && p.config.ThrottleField_ != p.config.RedisBackendCfg.LimiterKeyField_ ==> uf_sid(k) == tkid
+//@     requires len(p.config.ThrottleField_) == 0 || (tklen == 0 && p.config.ThrottleField_ != p.config.TimeField_ && p.config.ThrottleField_ != p.config.RedisBackendCfg.LimiterKeyField_) ==> k == defaultThrottleKey
+//@     set nga := nga + 1
+//@     set gtag := lim.tag
+//@     set gpay := lim.pay
+//@   callee isAllowed(e, t) (ok)
+//@     requires nga == 1 && nla == 0 && e == event && recv.tag == gtag && recv.pay == gpay
+//@     set nla := nla + 1
+//@     set res := ok
+
+// Construction (C16: "keys never share a budget", and neither do time slots or shares):
+// a new ring has `count` rows of `distributionSize` zeroed counters each, every row
+// allocated by its own make during construction.  (That the rows are pairwise distinct
+// blocks - what rebuild$1 requires and keeps - follows from that, but cannot be written
+// as a loop invariant here: the contract language has no "allocated before this call".)
+
+//@ func newBucketsMeta
+//@   pure
+//@   ensures result.count == count && result.interval == interval && result.minID == 0 && result.maxID == 0
+
+//@ func newDistributedBucket
+//@   requires size >= 0
+//@   pure
+//@   ensures len(result) == size && fresh(result)
+//@   ensures forall k :: 0 <= k && k < size ==> result[k] == 0
+
+//@ func newSimpleBuckets
+//@   requires count >= 0
+//@   pure
+//@   ensures result != nil && fresh(result) && len(result.b) == count && result.count == count && result.interval == interval && result.minID == 0 && result.maxID == 0
+//@   ensures forall k :: 0 <= k && k < count ==> result.b[k] == 0
+
+//@ func newDistributedBuckets
+//@   requires count >= 0 && distributionSize >= 0
+//@   pure
+//@   ensures result != nil && fresh(result) && len(result.b) == count && result.count == count && result.interval == interval && result.minID == 0 && result.maxID == 0
+//@   ensures forall k :: 0 <= k && k < count ==> len(result.b[k]) == distributionSize
+//@   ensures forall k, d :: 0 <= k && k < count && 0 <= d && d < distributionSize ==> result.b[k][d] == 0
+//@   loop 1 invariant 0 <= i && i <= count && db != nil && fresh(db) && len(db.b) == count && fresh(db.b) && db.count == count && db.interval == interval && db.minID == 0 && db.maxID == 0
+//@   loop 1 invariant forall k :: 0 <= k && k < i ==> len(db.b[k]) == distributionSize && fresh(db.b[k])
+//@   loop 1 invariant forall k, d :: 0 <= k && k < i && 0 <= d && d < distributionSize ==> db.b[k][d] == 0
+
+//@ func (*limitDistributions).size
+//@   pure
+//@   ensures result == len(ld.distributions)
+
+//@ func (*limitDistributions).isEnabled
+//@   pure
+//@   ensures result == (ld.enabled && len(ld.distributions) > 0)
+
+// newBuckets: one counter per bucket when there is only the default share, otherwise a
+// row of distributionSize counters per bucket - built for exactly the requested ring.
+
+//@ func newBuckets
+//@   ghost ns int = 0
+//@   ghost nd int = 0
+//@   ghost gref int = 0
+//@   requires count >= 0 && distributionSize >= 1
+//@   pure
+//@   ensures distributionSize == 1 ==> ns == 1 && nd == 0
+//@   ensures distributionSize != 1 ==> ns == 0 && nd == 1
+//@   ensures result.pay == gref
+//@   callee newSimpleBuckets(c, iv) (r)
+//@     requires c == count && iv == interval
+//@     set ns := ns + 1
+//@     set gref := ref(r)
+//@   callee newDistributedBuckets(c, d, iv) (r)
+//@     requires c == count && d == distributionSize && iv == interval
+//@     set nd := nd + 1
+//@     set gref := ref(r)
+
+// copy: the copy has its own distributions block with the same shares (limit and ratio),
+// the same default share and the same enabled flag.
+
+//@ func (*limitDistributions).copy
+//@   pure
+//@   ensures len(result.distributions) == len(ld.distributions) && fresh(result.distributions)
+//@   ensures forall k :: 0 <= k && k < len(ld.distributions) ==> result.distributions[k].limit == ld.distributions[k].limit
+//@   ensures result.defDistribution.limit == ld.defDistribution.limit && result.enabled == ld.enabled
+//@   ensures len(result.field) == len(ld.field)
+//@   callee Copy(dst, src)
+//@     pure
+
+// newInMemoryLimiter (C16: "keys never share a budget"; shares): the limiter gets the rule's
+// total limit and kind, its own ring of cfg.bucketsCount buckets of cfg.bucketInterval with
+// one counter per listed share plus one for the default share (so that every slot
+// getDistrData can answer, 0..len(distributions), is a column of the row), and - when
+// there are shares - its own copy of them.
+
+//@ func newInMemoryLimiter
+//@   ghost nb int = 0
+//@   ghost gpay int = 0
+//@   ghost ncp int = 0
+//@   requires cfg != nil && limit != nil && limitDistrMetrics != nil && cfg.bucketsCount >= 0
+//@   pure
+//@   ensures result != nil && fresh(result) && nb == 1
+//@   ensures result.limit.value == limit.value && result.limit.kind == limit.kind && result.buckets.pay == gpay
+//@   ensures len(limit.distributions.distributions) > 0 ==> ncp == 1 && len(result.limit.distributions.distributions) == len(limit.distributions.distributions)
+//@   ensures len(limit.distributions.distributions) > 0 ==> result.limit.distributions.enabled == limit.distributions.enabled && result.limit.distributions.defDistribution.limit == limit.distributions.defDistribution.limit
+//@   ensures len(limit.distributions.distributions) > 0 ==> (forall k :: 0 <= k && k < len(limit.distributions.distributions) ==> result.limit.distributions.distributions[k].limit == limit.distributions.distributions[k].limit)
+//@   ensures len(limit.distributions.distributions) == 0 ==> ncp == 0 && len(result.limit.distributions.distributions) == 0
+//@   callee newBuckets(c, d, iv) (r)
+//@     requires nb == 0 && c == cfg.bucketsCount && d == len(limit.distributions.distributions) + 1 && iv == cfg.bucketInterval
+//@     set nb := nb + 1
+//@     set gpay := r.pay
+//@   callee copy() (r)
+//@     requires ref(recv) == ref(limit)
+//@     set ncp := ncp + 1
+
+// newLimiter (C16: "the limit selected by the first matching rule"; in-memory backend):
+// the limiter of a (rule, key) pair is built from that rule's own limit (the limit
+// object inside the rule that was passed in) and from the map's limiter configuration
+// and clock; the backend decides the kind of limiter and nothing else does.
+
+//@ func (*limitersMap).newLimiter
+//@   option allow-exit yes
+//@   ghost nmem int = 0
+//@   ghost nred int = 0
+//@   ghost gpay int = 0
+//@   requires rule != nil && l.limiterCfg != nil && l.limitDistrMetrics != nil && l.limiterCfg.bucketsCount >= 0
+//@   pure
+//@   ensures l.limiterCfg.backend == inMemoryBackend ==> nmem == 1 && nred == 0 && result.pay == gpay && result != nil
+//@   ensures l.limiterCfg.backend == redisBackend ==> nred == 1 && nmem == 0
+//@   ensures nmem + nred <= 1
+//@   callee newInMemoryLimiter(c, lim, m, now) (r)
+//@     requires c == l.limiterCfg && ref(lim) == ref(rule) && lim.value == rule.limit.value && m == l.limitDistrMetrics
+//@     set nmem := nmem + 1
+//@     set gpay := ref(r)
+//@   callee newRedisLimiter(c, k, o, lim, m, now) (r)
+//@     requires c == l.limiterCfg && ref(lim) == ref(rule) && k == throttleKey && o == keyLimitOverride
+//@     pure
+//@     set nred := nred + 1
+
+// toInternal (C16: "rule lists and distribution ratios"): the internal form lists the
+// configured ratios one for one, in order, with their value lists untouched, for the
+// configured field, and is enabled.
+
+//@ func (LimitDistributionConfig).toInternal
+//@   pure
+//@   ensures result.Field == c.Field && result.Enabled
+//@   ensures len(result.Ratios) == len(c.Ratios)
+//@   ensures forall k :: 0 <= k && k < len(c.Ratios) ==> result.Ratios[k].Ratio == c.Ratios[k].Ratio && result.Ratios[k].Values == c.Ratios[k].Values
+//@   loop 1 invariant -1 <= rangeindex && rangeindex < len(c.Ratios) && len(internal.Ratios) == rangeindex + 1 && cap(internal.Ratios) == len(c.Ratios) && fresh(internal.Ratios)
+//@   loop 1 invariant internal.Field == c.Field && internal.Enabled
+//@   loop 1 invariant forall k :: 0 <= k && k <= rangeindex ==> internal.Ratios[k].Ratio == c.Ratios[k].Ratio && internal.Ratios[k].Values == c.Ratios[k].Values
+
+// parseLimitDistribution (C16: "distribution ratios").  What is decided here: which
+// configurations are accepted, the shape of the result, and that the value -> share map
+// only ever holds indices of existing shares, each value under the share whose list
+// names it (this is the data invariant getLimit assumes at its lookup).  What is not: the
+// share limits themselves, round(ratio * total) - float multiplication, math.Round and
+// float -> int conversion are outside the verifier's arithmetic.
+
+//@ func parseLimitDistribution
+//@   pure
+//@   ensures c.Field == "" ==> result1 == nil && len(result0.distributions) == 0 && !result0.enabled
+//@   ensures c.Field != "" && len(c.Ratios) == 0 ==> result1 == nil && len(result0.distributions) == 0 && result0.enabled == c.Enabled
+//@   ensures c.Field != "" && len(c.Ratios) > 0 && result1 == nil ==> len(result0.distributions) == len(c.Ratios) && result0.enabled == c.Enabled
+//@   ensures result1 == nil && c.Field != "" ==> (forall k :: 0 <= k && k < len(c.Ratios) ==> c.Ratios[k].Ratio >= 0 && c.Ratios[k].Ratio <= 1 && len(c.Ratios[k].Values) > 0)
+//@   ensures result1 == nil && c.Field != "" ==> (forall k :: 0 <= k && k < len(c.Ratios) ==> result0.distributions[k].ratio == c.Ratios[k].Ratio)
+//@   ensures result1 == nil && c.Field != "" ==> (forall j, k :: 0 <= j && j < k && k < len(c.Ratios) ==> c.Ratios[j].Ratio + c.Ratios[k].Ratio <= 1)
+//@   loop 1 invariant ratioSum >= 0 && (forall k :: 0 <= k && k <= rangeindex ==> c.Ratios[k].Ratio <= ratioSum) && (forall j, k :: 0 <= j && j < k && k <= rangeindex ==> c.Ratios[j].Ratio + c.Ratios[k].Ratio <= ratioSum)
+//@   loop 2 invariant ratioSum >= 0 && (forall k :: 0 <= k && k <= rangeindex ==> c.Ratios[k].Ratio <= ratioSum) && (forall j, k :: 0 <= j && j < k && k <= rangeindex ==> c.Ratios[j].Ratio + c.Ratios[k].Ratio <= ratioSum)
+//@   loop 1 invariant -1 <= rangeindex && rangeindex < len(c.Ratios) && len(ld.distributions) == len(c.Ratios) && fresh(ld.distributions) && ld.enabled == c.Enabled && len(c.Ratios) > 0 && c.Field != ""
+//@   loop 1 invariant forall k :: 0 <= k && k <= rangeindex ==> c.Ratios[k].Ratio >= 0 && c.Ratios[k].Ratio <= 1 && len(c.Ratios[k].Values) > 0 && ld.distributions[k].ratio == c.Ratios[k].Ratio
+//@   loop 2 invariant 0 <= rangeindex && rangeindex < len(c.Ratios) && len(ld.distributions) == len(c.Ratios) && fresh(ld.distributions) && ld.enabled == c.Enabled && len(c.Ratios) > 0 && c.Field != ""
+//@   loop 2 invariant i == rangeindex && -1 <= rangeindex#2 && rangeindex#2 < len(r.Values) && r.Values == c.Ratios[i].Values && r.Ratio == c.Ratios[i].Ratio && r.Ratio >= 0 && r.Ratio <= 1 && len(r.Values) > 0
+//@   loop 2 invariant forall k :: 0 <= k && k < rangeindex ==> c.Ratios[k].Ratio >= 0 && c.Ratios[k].Ratio <= 1 && len(c.Ratios[k].Values) > 0 && ld.distributions[k].ratio == c.Ratios[k].Ratio
+//@   callee mapupdate:idxByKey(k, v)
+//@     requires 0 <= v && v < len(ld.distributions) && v < len(c.Ratios)
+//@     requires exists j :: 0 <= j && j < len(c.Ratios[v].Values) && k == c.Ratios[v].Values[j]
+//@     requires v == rangeindex && 0 <= rangeindex#2 && rangeindex#2 < len(c.Ratios[v].Values) && k == c.Ratios[v].Values[rangeindex#2]
+//@   callee ParseFieldSelector(sel) (f)
+//@     requires sel == c.Field
+//@     pure
+
+//@ func (*limitDistributionCfg).isEmpty
+//@   pure
+//@   ensures result == (c.Field == "" || len(c.Ratios) == 0)
+
+// updateDistribution (a new distribution arrives for a live limiter): nothing changes
+// when the new configuration is refused; otherwise, under the limiter's lock, the
+// distribution is replaced by the one parsed against the limiter's current total limit,
+// and the ring is rebuilt - same number of buckets and interval, one counter per new
+// share plus the default - exactly when the number of shares changes, so that the row
+// width always is len(distributions) + 1 (what getDistrData's slots rely on).
+
+//@ func (*inMemoryLimiter).updateDistribution
+//@   ghost gl int = 0
+//@   ghost ngl int = 0
+//@   ghost npar int = 0
+//@   ghost perr bool = false
+//@   ghost gsz int = 0
+//@   ghost gen bool = false
+//@   ghost gdef int = 0
+//@   ghost gcount int = 0
+//@   ghost giv int = 0
+//@   ghost ncnt int = 0
+//@   ghost niv int = 0
+//@   ghost nnb int = 0
+//@   ghost gpay int = 0
+//@   ghost nlock int = 0
+//@   ghost nunlock int = 0
+//@   ensures npar == 0 ==> result == nil && nnb == 0 && nlock == 0 && len(l.limit.distributions.distributions) == 0 && old(len(l.limit.distributions.distributions)) == 0
+//@   ensures npar == 1 && perr ==> result != nil && nnb == 0 && nlock == 0 && len(l.limit.distributions.distributions) == old(len(l.limit.distributions.distributions)) && l.buckets == old(l.buckets)
+//@   ensures npar == 1 && !perr ==> result == nil && nlock == 1 && nunlock == 1 && len(l.limit.distributions.distributions) == gsz
+//@   ensures npar == 1 && !perr ==> l.limit.distributions.enabled == gen && l.limit.distributions.defDistribution.limit == gdef
+//@   ensures npar == 1 && !perr && old(len(l.limit.distributions.distributions)) != gsz ==> nnb == 1 && l.buckets.pay == gpay
+//@   ensures npar == 1 && !perr && old(len(l.limit.distributions.distributions)) == gsz ==> nnb == 0 && l.buckets == old(l.buckets)
+//@   ensures npar <= 1 && l.limit.value == old(l.limit.value) && l.limit.kind == old(l.limit.kind)
+//@   callee getLimit() (r)
+//@     pure
+//@     set gl := r
+//@     set ngl := ngl + 1
+//@   callee parseLimitDistribution(c, t) (d, e)
+//@     requires ngl == 1 && t == gl && c.Field == distribution.Field && c.Ratios == distribution.Ratios && c.Enabled == distribution.Enabled
+//@     set npar := npar + 1
+//@     set perr := e != nil
+//@     set gsz := len(d.distributions)
+//@     set gen := d.enabled
+//@     set gdef := d.defDistribution.limit
+//@   callee lock()
+//@     pure
+//@     set nlock := nlock + 1
+//@   callee unlock()
+//@     requires nlock == 1
+//@     pure
+//@     set nunlock := nunlock + 1
+//@   callee getCount() (r)
+//@     pure
+//@     ensures r >= 0
+//@     set gcount := r
+//@     set ncnt := ncnt + 1
+//@   callee getInterval() (r)
+//@     pure
+//@     set giv := r
+//@     set niv := niv + 1
+//@   callee newBuckets(c, d, iv) (r)
+//@     requires nlock == 1 && nunlock == 0 && ncnt >= 1 && niv >= 1 && c == gcount && iv == giv && d == gsz + 1
+//@     set nnb := nnb + 1
+//@     set gpay := r.pay
+
+// maintenance (C16: no key gets a second budget while it is in use): a limiter is
+// removed from the map only under the map's write lock and only when its last use
+// (the generation getOrAdd stores on every access) lies at least limitersExp behind
+// the clock value read for this sweep; that clock value becomes the map's generation.
+
+//@ func (*limitersMap).maintenance
+//@   ghost wl bool = false
+//@   ghost gl int = 0
+//@   ghost gnow int = 0
+//@   ghost nload int = 0
+//@   requires l.mu != nil
+//@   loop 1 invariant !wl
+//@   loop 2 invariant wl && l.curGen == gnow
+//@   callee Lock()
+//@     pure
+//@     set wl := true
+//@   callee Unlock()
+//@     requires wl
+//@     pure
+//@     set wl := false
+//@   callee UnixMicro() (r)
+//@     pure
+//@     set gnow := r
+//@   callee Load() (r)
+//@     requires wl
+//@     pure
+//@     set gl := r
+//@     set nload := nload + 1
+//@   assert at "delete(l.lims, key)" wl && gnow - gl >= l.limitersExp
+//@   assert at "delete(l.limsCfg, key)" wl && gnow - gl >= l.limitersExp
+
+// rebuild (C16: "events timed outside the retained window count against the newest
+// bucket"; the window follows the wall clock): the ring's own meta data, the wall-clock
+// time and the event time are handed to rebuildBuckets in exactly these roles (an event
+// time passed as current time would let event timestamps move the window), and its
+// answer is the answer.
+
+//@ func (*distributedBuckets).rebuild
+//@   ghost nrb int = 0
+//@   ghost gr int = 0
+//@   requires b != nil && b.count >= 1 && (b.minID != 0 ==> b.maxID == b.minID + b.count - 1)
+//@   ensures nrb == 1 && result == gr
+//@   ensures b.maxID == b.minID + b.count - 1 && b.count == old(b.count) && b.minID <= result && result <= b.maxID
+//@   callee rebuildBuckets(meta, fn, cur, t) (r)
+//@     requires nrb == 0 && ref(meta) == ref(b)
+//@     requires cur.wall == currentTs.wall && cur.ext == currentTs.ext && t.wall == ts.wall && t.ext == ts.ext
+//@     set nrb := nrb + 1
+//@     set gr := r
+
+//@ func (*simpleBuckets).rebuild
+//@   ghost nrb int = 0
+//@   ghost gr int = 0
+//@   requires b != nil && b.count >= 1 && (b.minID != 0 ==> b.maxID == b.minID + b.count - 1)
+//@   ensures nrb == 1 && result == gr
+//@   ensures b.maxID == b.minID + b.count - 1 && b.count == old(b.count) && b.minID <= result && result <= b.maxID
+//@   callee rebuildBuckets(meta, fn, cur, t) (r)
+//@     requires nrb == 0 && ref(meta) == ref(b)
+//@     requires cur.wall == currentTs.wall && cur.ext == currentTs.ext && t.wall == ts.wall && t.ext == ts.ext
+//@     set nrb := nrb + 1
+//@     set gr := r
